@@ -507,7 +507,23 @@ def rule_flags(rep):
             rep.instances.append(i)
             n_eq += 1
     if n_eq == 0:
-        rep.inconclusive("C11.flags", "xdynamic_bitset_base<unsigned long>::operator==", "every block compared", detail="no block loop found in the flag storage's ==")
+        # no hand loop: the whole buffers compared by the standard library
+        whole = False
+        for cname, kind, fn in inst.fns:
+            if fn.get("name") != "operator==" or cname != "xdynamic_bitset_base":
+                continue
+            for x in ir.walk_expr(fn):
+                t = ir.sx(x)
+                if x.get("kind") == "CallExpr" and t[0] == "call" and t[1][0] == "ref" and str(t[1][1]).split("::")[-1] == "equal" and \
+                        any(a == ("call", ("mem", ("mem", ("this",), "m_buffer"), "begin")) or a == ("call", ("mem", ("mem", ("this",), "m_buffer"), "cbegin")) for a in t[2:]) and \
+                        any(a in (("call", ("mem", ("mem", ("this",), "m_buffer"), "end")), ("call", ("mem", ("mem", ("this",), "m_buffer"), "cend"))) for a in t[2:]):
+                    whole = True
+                if t[0] == "bin" and t[1] in ("==", "!=") and t[2] == ("mem", ("this",), "m_buffer") and t[3][0] == "mem" and t[3][2] == "m_buffer":
+                    whole = True
+        if whole:
+            rep.holds("C11.flags", "xdynamic_bitset_base<unsigned long>::operator==", "every block compared", detail="the block buffers are compared as a whole")
+        else:
+            rep.inconclusive("C11.flags", "xdynamic_bitset_base<unsigned long>::operator==", "every block compared", detail="no block loop found in the flag storage's ==")
     rep.unit("flag storage xdynamic_bitset<unsigned long>: %d instances from C03's block/size rules" % (len(rep.instances) - before))
 
 
